@@ -6,3 +6,5 @@
 pub mod gen_pi;
 #[path = "../gen/params.rs"]
 pub mod params;
+pub mod refs;
+pub mod bcn_ref;
